@@ -521,7 +521,7 @@ func runC08(c *Cfg) {
 		}, func(i int, cs *PoolCase, o *PoolObs) { r.Count("race.pool_runs", 1); r.Nontrivial(fmt.Sprintf("rp %d %d %d", cs.Workers, cs.Tasks, cs.Submitters)) }, "C08")
 		return
 	}
-	orders := c.Pick(3, 40)
+	orders := c.Pick(3, 100)
 	var cases []*BatchCase
 	idx := 0
 	for cc := 0; cc <= 16; cc++ {
@@ -680,7 +680,7 @@ func runC12(c *Cfg) {
 	}
 	// gated: every pool size, task counts around the queue capacity (2*workers) and far beyond
 	var pcs []*PoolCase
-	reps := c.Pick(1, 8)
+	reps := c.Pick(1, 20)
 	for w := -1; w <= 16; w++ {
 		we := effWorkers(w)
 		for _, n := range []int{0, 1, we, 2 * we, 3 * we, 3*we + 1, 5*we + 3} {
@@ -719,7 +719,7 @@ func runC12(c *Cfg) {
 		}
 	}, "C12")
 	// free-running with random durations, up to 500 tasks
-	nr := c.Pick(150, 3000)
+	nr := c.Pick(150, 10000)
 	poolLoop(c, nr, func(i int) *PoolCase {
 		rg := c.Rng("c12free", i)
 		return &PoolCase{Family: "free", Workers: rg.IntN(18) - 1, Tasks: rg.IntN(501), Submitters: 1 + rg.IntN(4), Rounds: 1 + rg.IntN(5), SleepUs: rg.IntN(30), PSeed: rg.Uint64()}
